@@ -3,6 +3,8 @@ package main
 import (
 	"encoding/json"
 	"fmt"
+	"strconv"
+	"strings"
 
 	"github.com/antonmedv/expr"
 	"github.com/antonmedv/expr/vm"
@@ -51,6 +53,14 @@ type VMOp struct {
 	// Rep, when set, is the environment representation for this op only (the
 	// programs were compiled for the scenario's representation).
 	Rep string `json:"env_representation,omitempty"`
+	// Persist: the op runs on the VM's PERSISTENT environment object (built once per
+	// VM and kept by the caller), after the caller has changed it in place as
+	// Mutate says; the fresh-VM run gets a newly built environment with the same
+	// contents. Only meaningful with the scenario's own representation.
+	Persist bool   `json:"persistent_env,omitempty"`
+	Mutate  string `json:"mutate,omitempty"` // "" | "Ss:<idx>:<value>" | "Xs:<idx>:<int>" | "A:<int>"
+	// NilEnv: the environment is a typed nil pointer ((*Env)(nil)).
+	NilEnv bool `json:"nil_pointer_env,omitempty"`
 }
 
 type VMScenario struct {
@@ -97,6 +107,12 @@ func genVMScenario(seed uint64, idx int, tier string, snapshotBias bool) *VMScen
 	if r.Chance(1, 8) {
 		base.M = r.Range(1100, 2600) // deep operand stacks: map(N..M, ...) keeps every element on the stack
 	}
+	if r.Chance(1, 3) {
+		base.Ss = nil
+		for i := 0; i < 9; i++ {
+			base.Ss = append(base.Ss, r.Pick(strPool))
+		}
+	}
 	base.A = r.Range(3, 40)
 	if base.Z == 0 {
 		base.Z = 1
@@ -142,6 +158,29 @@ func genVMScenario(seed uint64, idx int, tier string, snapshotBias bool) *VMScen
 		if r.Chance(1, 6) {
 			ps.Kind = "feedback"
 			ps.Tree = genFeedback(g0)
+		}
+		if r.Chance(1, 6) {
+			// tiny programs whose single member access sits at the same bytecode offset
+			ps.Kind = "tiny"
+			ps.NoEnv = false
+			switch g0.Intn(8) {
+			case 0:
+				ps.Tree = nProp(nID("O"), "V", false)
+			case 1:
+				ps.Tree = nProp(nID("O"), "Name", false)
+			case 2:
+				ps.Tree = nProp(nID("O"), "Xs", false)
+			case 3:
+				ps.Tree = nBi("map", nID("Objs"), nProp(nPtr(), "V", false))
+			case 4:
+				ps.Tree = nBi("map", nID("Objs"), nProp(nPtr(), "Name", false))
+			case 5:
+				ps.Tree = nBin("in", nStr(g0.Pick(strPool)), nID("Ss"))
+			case 6:
+				ps.Tree = nBin("not in", nID("S"), nID("Ss"))
+			default:
+				ps.Tree = nProp(nID("O"), "L", false)
+			}
 		}
 		if r.Chance(1, 6) {
 			ps.NoEnv = true
@@ -219,6 +258,20 @@ func genVMScenario(seed uint64, idx int, tier string, snapshotBias bool) *VMScen
 		}
 		if r.Chance(1, 8) {
 			op.Rep = []string{RepStruct, RepPtr, RepMap}[r.Intn(3)]
+		}
+		if r.Chance(1, 5) {
+			op.Persist, op.Rep, op.Feed, op.Env = true, "", false, 0
+			switch r.Intn(4) {
+			case 0:
+				op.Mutate = fmt.Sprintf("Ss:%d:%s", r.Intn(9), r.Pick([]string{"a", "zz", "k1", "new"}))
+			case 1:
+				op.Mutate = fmt.Sprintf("Xs:%d:%d", r.Intn(4), r.Range(-3, 9))
+			case 2:
+				op.Mutate = fmt.Sprintf("A:%d", r.Range(1, 30))
+			}
+		}
+		if r.Chance(1, 30) {
+			op.NilEnv, op.Persist, op.Feed = true, false, false
 		}
 		if r.Chance(1, 6) {
 			op.Faults = []CallFault{{Idx: r.Intn(6), Kind: allFaultKinds[r.Intn(len(allFaultKinds))]}}
@@ -328,6 +381,48 @@ func genFeedback(r *RNG) *N {
 		return nID("Any")
 	default:
 		return nArr(nID("Any"), nBi("filter", nID("Xs"), nBin(">", nPtr(), nInt(0))), nArr(nArr(nID("K"))))
+	}
+}
+
+func cloneEnvData(d *EnvData) *EnvData {
+	b, _ := json.Marshal(d)
+	var c EnvData
+	json.Unmarshal(b, &c)
+	return &c
+}
+
+// applyMutation changes the environment in place (the same slices, the same
+// object) and its description in the same way.
+func applyMutation(d *EnvData, e *Env, m string) {
+	parts := strings.SplitN(m, ":", 3)
+	switch parts[0] {
+	case "Ss":
+		if len(parts) == 3 {
+			i, _ := strconv.Atoi(parts[1])
+			if i < len(e.Ss) && i < len(d.Ss) {
+				e.Ss[i] = parts[2]
+				d.Ss[i] = parts[2]
+			}
+		}
+	case "Xs":
+		if len(parts) == 3 {
+			i, _ := strconv.Atoi(parts[1])
+			v, _ := strconv.Atoi(parts[2])
+			if i < len(e.Xs) && i < len(d.Xs) {
+				e.Xs[i] = v
+				d.Xs[i] = v
+			}
+		}
+	case "A":
+		if len(parts) >= 2 {
+			v, _ := strconv.Atoi(parts[1])
+			e.A, d.A = v, v
+			e.U8 = uint8((d.A + 8) * 15)
+			e.I64 = int64(d.A) * 1000003
+			if e.Pm != nil {
+				(*e.Pm)["k1"] = d.A
+			}
+		}
 	}
 }
 
@@ -547,6 +642,8 @@ func runVMHistory(sc *VMScenario, ctx *RunCtx, prop string) *Finding {
 	hist := make([]string, sc.VMs)
 	lastOut := make([]interface{}, sc.VMs)  // live result object of the last successful run
 	lastCopy := make([]interface{}, sc.VMs) // its deep copy, taken when it was returned
+	penv := make([]*Env, sc.VMs)            // the caller's persistent environment object per VM
+	penvData := make([]*EnvData, sc.VMs)    // its contents as data
 	for i := range machines {
 		machines[i] = &vm.VM{}
 	}
@@ -569,7 +666,23 @@ func runVMHistory(sc *VMScenario, ctx *RunCtx, prop string) *Finding {
 		var envBefore string
 		w := NewWorld(sc.Stateful, op.Faults, nil)
 		envv := BuildEnv(w, sc.Envs[op.Env]).AsRep(opRep(sc, op))
-		feed := op.Feed && lastOut[op.VM] != nil
+		persist := op.Persist && sc.Rep != RepStruct // a struct VALUE is copied on every call anyway
+		if persist {
+			// the caller's long-lived environment object for this VM, changed in place
+			if penv[op.VM] == nil {
+				penvData[op.VM] = cloneEnvData(sc.Envs[0])
+				penv[op.VM] = BuildEnv(w, penvData[op.VM])
+			}
+			applyMutation(penvData[op.VM], penv[op.VM], op.Mutate)
+			penv[op.VM].rebind(w)
+			envv = penv[op.VM].AsRep(sc.Rep)
+			ctx.Count("ops_on_persistent_env", 1)
+		}
+		if op.NilEnv {
+			envv = (*Env)(nil)
+			ctx.Count("ops_on_nil_pointer_env", 1)
+		}
+		feed := op.Feed && lastOut[op.VM] != nil && !persist && !op.NilEnv
 		var freshEnv interface{}
 		if feed {
 			ctx.Count("ops_fed_previous_result", 1)
@@ -588,6 +701,16 @@ func runVMHistory(sc *VMScenario, ctx *RunCtx, prop string) *Finding {
 			vm.MemoryBudget = op.Budget
 			beginRun(crash, 0)
 			want = sutRun(nil, cp.prog, freshEnv)
+			wantJ = wf.Journal
+		} else if persist || op.NilEnv {
+			wf := NewWorld(sc.Stateful, op.Faults, nil)
+			var fe interface{} = (*Env)(nil)
+			if persist {
+				fe = BuildEnv(wf, penvData[op.VM]).AsRep(sc.Rep) // same contents, newly built
+			}
+			vm.MemoryBudget = op.Budget
+			beginRun(crash, 0)
+			want = sutRun(nil, cp.prog, fe)
 			wantJ = wf.Journal
 		} else {
 			want, wantJ, _ = oneRun(sc, nil, cp, op, crash)
@@ -697,7 +820,7 @@ func runVMHistory(sc *VMScenario, ctx *RunCtx, prop string) *Finding {
 			ctx.Count("snapshots_compared", 1+len(progs))
 			// same run on an equal environment (fresh VM, fresh equal world)
 			again, againJ := want, wantJ
-			if !feed {
+			if !feed && !persist && !op.NilEnv {
 				// ... an environment that is deep-equal but shares pointers differently
 				// (O2 aliases O instead of being an equal copy)
 				AliasO2 = true
@@ -815,6 +938,12 @@ func vmShrinks(sc *VMScenario) []interface{} {
 		}
 		if op.Rep != "" {
 			add(func(c *VMScenario) { c.Ops[i].Rep = "" })
+		}
+		if op.Persist {
+			add(func(c *VMScenario) { c.Ops[i].Persist = false; c.Ops[i].Mutate = "" })
+		}
+		if op.NilEnv {
+			add(func(c *VMScenario) { c.Ops[i].NilEnv = false })
 		}
 		if op.Env != 0 {
 			add(func(c *VMScenario) { c.Ops[i].Env = 0 })
